@@ -195,4 +195,11 @@ def pinAllocateCall : List String := [
   "c.allocate( ctx, pin.Cid, existing, pin.ReplicationFactorMin, pin.ReplicationFactorMax, blacklist, pin.UserAllocations, )"
 ]
 
+/-- createCluster (cmd/ipfs-cluster-service/daemon.go): the statements that build the informer / allocator and the NewCluster call -/
+def daemonWiringSource : List String := [
+  "informer, err := disk.NewInformer(cfgs.Diskinf)",
+  "alloc := descendalloc.NewAllocator()",
+  "return ipfscluster.NewCluster( ctx, host, dht, cfgs.Cluster, store, cons, apis, connector, tracker, mon, alloc, []ipfscluster.Informer{informer}, tracer, )"
+]
+
 end CV.C03.Expected
